@@ -63,7 +63,7 @@ pub fn eval(c: &Case) -> (Vec<(String, String)>, String) {
     let p = &c.params;
     let robot = match c.limits {
         None => OPWKinematics::new(*p),
-        Some(l) => OPWKinematics::new_with_constraints(*p, Constraints::new(l.from, l.to, l.weight)),
+        Some(l) => OPWKinematics::new_with_constraints(*p, l.build()),
     };
     let (w, centres) = match c.limits {
         None => (0.0, [0.0; 6]),
